@@ -394,4 +394,43 @@ Section JwsProofs.
     unfold me. rewrite (decode_signature_encoded payload p0 p u sg Fp Fs Vj Eb).
     eexists; split; [reflexivity|]. cbn. repeat split; reflexivity.
   Qed.
+
+  (* ---------- general decode: the items handed out agree on b64 ---------- *)
+  Lemma decode_signature_protected payload uh p sg it :
+    decode_signature payload uh p sg = Ok it -> decode_protected H parse_header p = Some (it_protected H it).
+  Proof.
+    unfold Jws.decode_signature, decode_protected. intros Hd.
+    destruct p as [pb|].
+    - destruct (b64u_decode pb) as [js|]; [|discriminate]. destruct (parse_header js) as [h|]; [|discriminate].
+      repeat match type of Hd with
+             | context [if ?b then _ else _] => destruct b; try discriminate
+             | context [match ?x with _ => _ end] => destruct x; try discriminate
+             end; inversion Hd; reflexivity.
+    - repeat match type of Hd with
+             | context [if ?b then _ else _] => destruct b; try discriminate
+             | context [match ?x with _ => _ end] => destruct x; try discriminate
+             end; inversion Hd; reflexivity.
+  Qed.
+  Lemma all_same_spec l : all_same l = true -> forall a b, In a l -> In b l -> a = b.
+  Proof.
+    destruct l as [|b0 r]; [intros _ a b []|]. cbn [all_same]. intros Hall.
+    assert (forall a, In a (b0 :: r) -> a = b0) as A.
+    { intros a [<-|Ha]; [reflexivity|]. rewrite forallb_forall in Hall. symmetry. apply Bool.eqb_prop. exact (Hall a Ha). }
+    intros a b Ha Hb. rewrite (A a Ha), (A b Hb). reflexivity.
+  Qed.
+  Theorem general_decode_items_agree pl es det items :
+    decode_general H hview parse_header pl es det = Ok items ->
+    length items = length es /\
+    forall it1 it2, In (Ok it1) items -> In (Ok it2) items ->
+      extract_b64 (oview H hview (it_protected H it1)) = extract_b64 (oview H hview (it_protected H it2)).
+  Proof.
+    unfold decode_general. destruct (expand_payload det pl) as [payload|]; [|discriminate].
+    destruct (all_same (general_b64_values H hview parse_header es)) eqn:A; cbn [negb]; [|discriminate].
+    intros Hi. inversion Hi; subst items; clear Hi. split; [apply map_length|].
+    assert (forall it, In (Ok it) (map (fun e => decode_signature payload (e_header H e) (e_protected H e) (e_signature H e)) es) ->
+            In (extract_b64 (oview H hview (it_protected H it))) (general_b64_values H hview parse_header es)) as VV.
+    { intros it Hin. apply in_map_iff in Hin as [e [He Hes]]. unfold general_b64_values. apply in_flat_map. exists e. split; [exact Hes|].
+      rewrite (decode_signature_protected _ _ _ _ _ He). left. reflexivity. }
+    intros it1 it2 H1 H2. exact (all_same_spec _ A _ _ (VV it1 H1) (VV it2 H2)).
+  Qed.
 End JwsProofs.
